@@ -7,7 +7,8 @@ vocabulary of `NixModel/Pure/TreeIds.lean`:
   * `H5Group.get_by_id(id_)`: what the stored `entity_id` of each child is compared with - the parameter as given
     (`id_`, `str(id_)`) or its canonical form (`str(UUID(str(id_)))`, `util.canonical_id(id_)`, through one
     optional re-binding statement `id_ = <that>` before the loop)                       -> `idKey`
-  * `Section.create_new`: what is stored as `entity_id` when `util.is_uuid(oid)`            -> `stored`
+  * `Section.create_new` (and the `oid` argument `Section.create_section` / `File.create_section` hand to it): what
+    is stored as `entity_id` when `util.is_uuid(oid)`                                          -> `stored`
 
 and, matched literally (ExtractError otherwise): `Container.__contains__` for a key that is not an entity
 (`if util.is_uuid(item): try: self._backend.get_by_id(item); return True / except KeyError: pass`, then
@@ -180,6 +181,20 @@ def shapes(repo):
             and _u(call.value.args[0]) == "'entity_id'" and not call.value.keywords):
         raise ExtractError("Section.create_new: the supplied id is not stored with set_attr('entity_id', ...)")
     stored = _norm(call.value.args[1], "oid", "Section.create_new")
+    # ---- the two public creators hand the oid on -------------------------------------------------
+    filecls = _cls(_parse(repo, "nixio/file.py"), "File", "nixio/file.py")
+    for owner, where in ((sec, "Section.create_section"), (filecls, "File.create_section")):
+        cfn = _func(owner, "create_section", where)
+        if [a.arg for a in cfn.args.args] != ["self", "name", "type_", "oid"]:
+            raise ExtractError("%s: parameters" % where)
+        calls = [n for n in ast.walk(cfn) if isinstance(n, ast.Call) and _u(n.func) == "Section.create_new"]
+        if len(calls) != 1 or len(calls[0].args) != 6 or calls[0].keywords:
+            raise ExtractError("%s: expected one call Section.create_new(file, parent, group, name, type_, <oid>)" % where)
+        if any(isinstance(n, (ast.Assign, ast.AugAssign, ast.AnnAssign)) and "oid" in
+               [_u(t) for t in (n.targets if isinstance(n, ast.Assign) else [n.target])] for n in ast.walk(cfn)):
+            raise ExtractError("%s: `oid` is re-bound before it is handed to Section.create_new" % where)
+        if _norm(calls[0].args[5], "oid", where) == ".canonical":
+            stored = ".canonical"
     if ".canonical" in (id_key, stored):
         _canonical_helper_ok(repo) if "canonical_id" in (_u(fn) + _u(_func(h5, "get_by_id", "H5Group"))) else None
     return {"idKey": id_key, "stored": stored}
